@@ -65,17 +65,33 @@ def decide(name, pairs, recs, key, what, payload, pre=()):
         recs.append(cex(key, what, payload, name=name))
 
 
-def job_definition(P, taps, W, cplx):
+def strided(x, layout):
+    """the same samples as a non-contiguous view: every second element of a longer array, or a column of a 2-D array"""
+    if layout == 'contig':
+        return x
+    n = len(x)
+    if layout == 'every2':
+        base = np.empty(2 * n, dtype=object)
+        base[::2] = list(x)
+        base[1::2] = [Sym(z3.Real(f'gap_{i}')) for i in range(n)]
+        return base.view(npx.SymArr)[::2]
+    base = np.empty((n, 3), dtype=object)
+    for c in range(3):
+        base[:, c] = list(x) if c == 1 else [Sym(z3.Real(f'col{c}_{i}')) for i in range(n)]
+    return base.view(npx.SymArr)[:, 1]
+
+
+def job_definition(P, taps, W, cplx, layout='contig'):
     recs = []
-    tag = f"C08:def:{(P, taps, W, cplx)}"
+    tag = f"C08:def:{(P, taps, W, cplx)}" + ('' if layout == 'contig' else f":{layout}")
     with volt_patches():
         fb, _ = mk_fb(taps, P)
         x = sym_stream('x', W * taps * P, complex_=cplx)
-        out = fb.channelize(x, cache=False)
+        out = fb.channelize(strided(x, layout), cache=False)
         ws = [lift(w) for w in fb.window]
         pairs = check_out(out, stream_terms(x), ws, P, taps, (W - 1) * taps)
-    pl = dict(fn='pfb', P=P, taps=taps, chunks=[W], cplx=cplx, scenario='oneshot')
-    decide(tag, pairs, recs, 'C08:definition', 'channelize output differs from the FIR+DFT definition', pl)
+    pl = dict(fn='pfb', P=P, taps=taps, chunks=[W], cplx=cplx, scenario='oneshot', layout=layout)
+    decide(tag, pairs, recs, 'C08:definition' if layout == 'contig' else 'C08:definition:strided-input', 'channelize output differs from the FIR+DFT definition', pl)
     # twin
     if pairs:
         r, _ = core.check([pairs[0][0][0] != pairs[0][1][0] + 1])
@@ -284,6 +300,14 @@ def replay_pfb(p):
     tot = sum(chunks) * taps * P
     x = rng.standard_normal(tot) + (1j * rng.standard_normal(tot) if p.get('cplx') else 0)
     ref = ref_pfb(x, w, P, taps)[:, :P // 2]
+    if p.get('layout', 'contig') == 'every2':
+        base = rng.standard_normal(2 * tot).astype(x.dtype)
+        base[::2] = x
+        x = base[::2]
+    elif p.get('layout', 'contig') == 'column':
+        base = rng.standard_normal((tot, 3)).astype(x.dtype)
+        base[:, 1] = x
+        x = base[:, 1]
     msgs = []
     close = lambda a, b: a.shape == b.shape and np.allclose(a, b, rtol=1e-9, atol=1e-9)
     if sc in ('oneshot', 'linear'):
@@ -362,6 +386,8 @@ def main():
         for taps in tapss:
             for cplx in (False, True):
                 jobs.append(('job_definition', (P, taps, 3, cplx)))
+            for layout in ('every2', 'column'):
+                jobs.append(('job_definition', (P, taps, 2, layout == 'column', layout)))
             jobs.append(('job_linear', (P, taps, 2)))
             jobs.append(('job_complex', (P, taps, 2)))
             for Wtot in range(2, Wmax + 1):
